@@ -2569,19 +2569,17 @@ class Parameters:
         values = self_.values()
         restore = {k: values[k] for k, v in kwargs.items() if k in values}
 
-        for (k, v) in kwargs.items():
-            if k not in self_:
-                self_._BATCH_WATCH = False
-                raise ValueError(f"{k!r} is not a parameter of {self_.cls.__name__}")
-            try:
+        try:
+            for (k, v) in kwargs.items():
+                if k not in self_:
+                    raise ValueError(f"{k!r} is not a parameter of {self_.cls.__name__}")
                 setattr(self_or_cls, k, v)
-            except Exception:
-                self_._BATCH_WATCH = False
-                raise
-
-        self_._BATCH_WATCH = BATCH_WATCH
-        if not BATCH_WATCH:
-            self_._batch_call_watchers()
+        finally:
+            # Restore the batching state on every exit and announce the
+            # changes applied so far, even if a later value was rejected
+            self_._BATCH_WATCH = BATCH_WATCH
+            if not BATCH_WATCH:
+                self_._batch_call_watchers()
 
         for tp in trigger_params:
             p = self_[tp]
